@@ -1,7 +1,7 @@
 """C02 - Converted models are referentially closed, or conversion fails with an error."""
 from ..cfgq import Scope, iter_chain, closure_id_of, closure_env, returned_nodes
 from ..dataflow import consumption
-from ..exprs import strip, short_callee, show, leaf_name, walk, mkproj, origin_desc
+from ..exprs import ExprBuilder, strip, short_callee, show, leaf_name, walk, mkproj, origin_desc
 from ..facts import AnalysisError
 from ..mir import callee_name, pl_local
 from ..spec.refgraph import REFS
@@ -164,7 +164,8 @@ def sources(prog, sc, n, mode="raw", depth=0, elemwise=False):
             return sources(prog, sc, n[2][0], "asserted", depth + 1)
         if nm == "ok":
             return sources(prog, sc, n[2][0], "ok-flattened", depth + 1)
-        if nm in ("ok_or_else", "ok_or", "copied", "cloned", "into_iter", "iter", "collect", "flatten", "rev", "map_err", "context", "into", "from"):
+        if nm in ("ok_or_else", "ok_or", "copied", "cloned", "into_iter", "iter", "collect", "flatten", "rev", "map_err", "context", "into", "from", "transpose", "as_ref", "as_deref",
+                  "deref", "borrow", "clone", "to_owned", "skip", "take", "peekable"):
             return sources(prog, sc, n[2][0], mode, depth + 1)
         if nm == "zip":
             return sources(prog, sc, n[2][0], mode, depth + 1)
@@ -198,6 +199,17 @@ def sources(prog, sc, n, mode="raw", depth=0, elemwise=False):
             return []      # the early return of `?`: an error is propagated, no element is produced on this path
         if nm in ("with_capacity", "new") and ("Vec" in n[1] or "vec::" in n[1]):
             return []      # empty collection: contributes no element
+        # a private function of the converter that builds the value (a loop with pushes, a match): its returned values, with the parameters bound
+        ids_ = [i_ for i_ in prog.callee_index().get(n[1], ()) if prog.fns[i_].path.startswith("bemodel::convert::") and prog.fns[i_].root == i_]
+        if len(ids_) == 1 and depth < 10:
+            hfn = prog.fns[ids_[0]]
+            if hfn.body.argc == len(n[2]):
+                hs = Scope(prog, hfn, argmap={i_ + 1: a_ for i_, a_ in enumerate(n[2])})
+                out = []
+                for (_, rn) in returned_nodes(hfn.body):
+                    out += sources(prog, hs, hs._rw(rn), mode, depth + 1)
+                if out:
+                    return out
         return [Src("other", "%s(..)" % nm, mode)]
     if k == "kx" or k == "k":
         return [Src("const", show(n)[:40], mode)]
@@ -214,6 +226,14 @@ def elem_sources(prog, sc, e, mode, depth):
             if nm == name:
                 return [x for v in var_values(s, l) for x in sources(prog, s, v, mode, depth + 1)]
         s = s.parent
+    # an unnamed collection (`x.iter().map(f).collect::<Result<Vec<_>, _>>()?` consumed in place): its elements are what its own chain produces
+    from ..cfgq import ELEM_SOURCES
+    ch = ELEM_SOURCES.get((e[1], e[2]))
+    if ch is not None and depth < 12:
+        src = strip(ch.source)
+        if src[0] in ("call", "proj") and not (src[0] == "proj" and strip(src[1])[0] in ("arg", "upvar")):
+            # the position of the element in a zip: the first collection's elements are component .0 of the pair
+            return sources(prog, sc, src, mode, depth + 1)
     return [Src("other", "element of %s" % name, mode)]
 
 
@@ -241,20 +261,41 @@ def idmaps_model(ctx, prog):
             tbl = isc.rvalue(s["rv"])
     ctx.require(tbl is not None, "IdMaps literal not found in IdMaps::new")
     tables = {}
+    from ..cfgq import inline_helper
+    from ..exprs import mkproj
     for fld, v in zip(tbl[2], tbl[3]):
-        ch = iter_chain(strip(v))
+        v = strip(v)
+        # a table built through a small helper (`ids_by_name(iterator)`) is read with the helper's body in place of the call
+        inl = inline_helper(prog, v) if v[0] == "call" else None
+        if inl is not None:
+            v = strip(inl)
+        ch = iter_chain(v)
         src = ch.source_name()
-        cl = [c for (a, c) in ch.steps if a in ("map", "filter_map", "flat_map")]
         ids = set()
-        for c in cl:
+        # the element flows through the closures of the chain in order: each map/filter_map closure is read with the previous one's result as its element
+        elems = [("elem", src, ())]
+        for (a, c) in ch.steps:
+            if a not in ("map", "filter_map", "flat_map"):
+                continue
             cfn = prog.fns.get(closure_id_of(c))
-            if cfn:
-                csc = Scope(prog, cfn, {}, ("elem", src, ()))
+            if not cfn:
+                continue
+            nxt = []
+            for el in elems:
+                csc = Scope(prog, cfn, closure_env(strip(c)) if closure_id_of(c) else {}, el)
                 for (_, rn) in returned_nodes(cfn.body):
-                    for x in walk(csc._rw(rn)):
+                    r = strip(csc._rw(rn))
+                    for x in walk(r):
                         idf = id_function(prog, x)
                         if idf:
                             ids.add(idf)
+                    if r[0] == "agg" and r[1].endswith("::Some") and r[3]:
+                        nxt.append(strip(r[3][0]))
+                    elif r[0] == "agg" and r[1].endswith("::None"):
+                        pass
+                    else:
+                        nxt.append(r)
+            elems = nxt[:4] or elems
         tables[fld] = (src, ids)
     accessors = {}
     for f in prog.fns.values():
@@ -427,7 +468,26 @@ def run(ctx):
                 if "[]" in l and "[]" in i and l.split("[]")[0] == i.split("[]")[0] and not generated_list(l.split("[]")[0]):
                     return True
             return False
-        missing = sorted(l for l in namel if not covered(l))
+        def constant_parameter(l):
+            """`l` is a parameter of the (private) function this literal sits in, and every call site passes a literal: the value is fixed per call site, each of
+            which also passes its own other arguments - it does not tell apart two elements made by the same call"""
+            rf = prog.root_of(sc.fn)
+            if rf.raw.get("pub"):
+                return False
+            idx = [i_ for i_, nm_ in rf.body.names.items() if nm_ == l.split(".")[0] and 1 <= i_ <= rf.body.argc]
+            if len(idx) != 1:
+                return False
+            from ..mir import callee_id
+            sites_ = []
+            for g in prog.fns.values():
+                geb = None
+                for b_, t_ in g.body.calls():
+                    if callee_id(t_) == rf.id:
+                        from ..exprs import ExprBuilder as _EB
+                        geb = geb or _EB(g.body)
+                        sites_.append(strip(geb.operand(t_["args"][idx[0] - 1])))
+            return bool(sites_) and all(a_[0] in ("s", "k") or (a_[0] == "kx") for a_ in sites_)
+        missing = sorted(l for l in namel if not covered(l) and not constant_parameter(l))
         key = "c02.unique|%s|%s" % (t, prog.display(sc.fn).split("::")[-1] if "{closure" not in prog.display(sc.fn) else prog.root_of(sc.fn).path.split("::")[-1])
         k2, c_ = key, 1
         while any(i.key == k2 for i in ctx.instances):
@@ -560,33 +620,57 @@ def run(ctx):
 
 
 def check_err_on_none(ctx, prog, fn, mapname, key):
-    """`match map.get(name) { Some(..) => .., _ => return Err(..) }`: the None arm leads to an error return"""
-    sc = Scope(prog, fn)
-    body = fn.body
-    for b, t in body.calls():
-        if short_callee(callee_name(t) or "") == "get" and leaf_name(strip(sc.operand(t["args"][0]))) == mapname:
-            nb = t.get("to")
-            # find the switch on the discriminant of the result
-            cur = nb
-            for _ in range(4):
-                tt = body.blocks[cur]["term"]
-                if tt["t"] == "switch":
-                    none_t = None
-                    for v, tg in tt["arms"]:
-                        if v == "0":
-                            none_t = tg
-                    if none_t is None:
-                        none_t = tt["else"]
-                    if leads_to_err(body, none_t):
-                        ctx.ok("c02.support", key, "a name missing from %s leads to an Err return" % mapname, fn.loc(t.get("ln")))
-                    else:
-                        ctx.violation("c02.support", key, "a name missing from %s no longer leads to an error return" % mapname, fn.loc(t.get("ln")))
+    """a name missing from the map leads to an error return, in fn or in a private function of its module it calls:
+    `match map.get(name) { Some(..) => .., _ => return Err(..) }` or `map.get(name).ok_or_else(..)?`"""
+    from ..cfgq import same_module
+    from ..mir import callee_id
+    cands, seen_ = [fn], {fn.id}
+    for f_ in cands:
+        if len(cands) > 12:
+            break
+        for b_, t_ in f_.body.calls():
+            cid = callee_id(t_)
+            if cid in prog.fns and cid not in seen_ and prog.fns[cid].root == cid and same_module(prog.fns[cid].path, fn.path) and not prog.fns[cid].raw.get("pub"):
+                seen_.add(cid)
+                cands.append(prog.fns[cid])
+    bad = None
+    for f_ in cands:
+        for g in [f_] + prog.closures_of(f_):
+            sc = Scope(prog, g)
+            body = g.body
+            for b, t in body.calls():
+                if not (short_callee(callee_name(t) or "") == "get" and (leaf_name(strip(sc.operand(t["args"][0]))) or "").endswith(mapname)):
+                    continue
+                kind, detail = consumption(body, b, t)
+                if kind == "propagated":
+                    ctx.ok("c02.support", key, "a name missing from %s leads to an Err return (`?` on the lookup)" % mapname, g.loc(t.get("ln")))
                     return
-                if tt["t"] == "goto":
-                    cur = tt["to"]
-                else:
-                    break
-    ctx.violation("c02.support", key, "lookup of %s with an error arm not found in %s" % (mapname, fn.path), fn.loc())
+                # find the switch on the discriminant of the result
+                cur = t.get("to")
+                for _ in range(4):
+                    if cur is None:
+                        break
+                    tt = body.blocks[cur]["term"]
+                    if tt["t"] == "switch":
+                        none_t = None
+                        for v, tg in tt["arms"]:
+                            if v == "0":
+                                none_t = tg
+                        if none_t is None:
+                            none_t = tt["else"]
+                        if leads_to_err(body, none_t):
+                            ctx.ok("c02.support", key, "a name missing from %s leads to an Err return" % mapname, g.loc(t.get("ln")))
+                            return
+                        bad = (g, t)
+                        break
+                    if tt["t"] == "goto":
+                        cur = tt["to"]
+                    else:
+                        break
+    if bad is not None:
+        ctx.violation("c02.support", key, "a name missing from %s no longer leads to an error return" % mapname, bad[0].loc(bad[1].get("ln")))
+    else:
+        ctx.violation("c02.support", key, "lookup of %s with an error arm not found in %s (nor in the private functions it calls)" % (mapname, fn.path), fn.loc())
 
 
 def leads_to_err(body, start):
